@@ -392,6 +392,37 @@ func (g *gen) pickNested(m *Message) []*Field {
 	return out
 }
 
+// orderBuild: exactly two entries with symbolic distinct keys and fixed values
+func (g *gen) orderBuild(m *Message, f *Field) {
+	g.p("func vhOrderBuild_%s_%s(x *%s, p string) {", m.GoName, f.GoName, m.GoName)
+	g.p("\tx.%s = %s{}", f.GoName, f.MapGo)
+	g.p("\tk0 := %s", g.symExpr(f.Key, "p+\".k0\"", g.keyLen))
+	g.p("\tk1 := %s", g.symExpr(f.Key, "p+\".k1\"", g.keyLen))
+	g.p("\tvhAssume(k0 != k1)")
+	if g.tier != "thorough" {
+		switch f.Key.Kind {
+		case "int32", "int64", "sint32", "sint64":
+			g.p("\tvhAssume(k0 >= -64 && k0 <= 63 && k1 >= -64 && k1 <= 63)")
+		case "uint32", "uint64":
+			g.p("\tvhAssume(k0 <= 127 && k1 <= 127)")
+		}
+	}
+	if f.Val.Kind == "message" && f.Val.MsgName != "" {
+		g.p("\tx.%s[k0] = &%s{}", f.GoName, f.Val.MsgName)
+		g.p("\tv1 := &%s{}", f.Val.MsgName)
+		g.p("\tvhFill_%s(v1)", f.Val.MsgName)
+		g.p("\tx.%s[k1] = v1", f.GoName)
+	} else if f.Val.Kind == "message" {
+		g.p("\tx.%s[k0] = nil", f.GoName)
+		g.p("\tx.%s[k1] = nil", f.GoName)
+	} else {
+		g.p("\tx.%s[k0] = %s", f.GoName, g.concExpr(f.Val, 1))
+		g.p("\tx.%s[k1] = %s", f.GoName, g.concExpr(f.Val, 2))
+	}
+	g.p("}")
+	g.p("")
+}
+
 func (g *gen) anyMessage(m *Message) {
 	fs := g.pickNested(m)
 	g.p("// vhAny_%s builds a %s with one symbolic active field (or unknown fields).", m.GoName, m.GoName)
@@ -729,6 +760,46 @@ func (g *gen) harnessUnknown(prop string, m *Message) {
 	g.p("\tvh%s_%s(x%s)", prop, n, extraArg(prop, "nil"))
 	g.p("}")
 	g.p("")
+	if prop == "C04" {
+		for _, f := range m.All {
+			isMapMsg := f.Card == "map" && f.Val.Kind == "message" && f.Val.MsgName != ""
+			isRepMsg := f.Card == "repeated" && f.Kind == "message" && f.MsgName != ""
+			if !isMapMsg && !isRepMsg {
+				continue
+			}
+			g.p("// nil nested values (a nil map value / nil list element): size and marshal agree and do not panic")
+			g.p("func VH_C04_%s_%s_nilvalue() {", n, f.GoName)
+			g.p("\tx := &%s{}", n)
+			if isMapMsg {
+				g.p("\tk := %s", g.symExpr(f.Key, "\"k\"", g.keyLen))
+				g.p("\tx.%s = %s{k: nil}", f.GoName, f.MapGo)
+			} else {
+				g.p("\tx.%s = %s{nil}", f.GoName, f.GoType)
+			}
+			g.p("\tflags := vhFlags(\"det\")")
+			g.p("\tmsg := x.ProtoReflect()")
+			g.p("\tsz := msg.ProtoMethods().Size(protoiface.SizeInput{Message: msg, Flags: flags}).Size")
+			g.p("\tout, err := msg.ProtoMethods().Marshal(protoiface.MarshalInput{Message: msg, Flags: flags})")
+			g.p("\tvhAssert(\"marshal.noerr\", err == nil)")
+			g.p("\tvhAssert(\"size.eq.marshal\", sz == len(out.Buf))")
+			g.p("}")
+			g.p("")
+		}
+	}
+	if prop == "C02" || prop == "C04" {
+		for _, f := range m.All {
+			if f.Card != "map" {
+				continue
+			}
+			g.p("// two map entries with symbolic keys: entry ORDER against the reference key order")
+			g.p("func VH_%s_%s_%s_order() {", prop, n, f.GoName)
+			g.p("\tx := &%s{}", n)
+			g.p("\tvhOrderBuild_%s_%s(x, \"a\")", n, f.GoName)
+			g.p("\tvh%s_%s(x%s)", prop, n, extraArg(prop, "nil"))
+			g.p("}")
+			g.p("")
+		}
+	}
 	if prop == "C04" || prop == "C02" {
 		for _, f := range m.All {
 			if f.Card != "repeated" || !f.Packed || !isPackable(f) {
@@ -790,6 +861,11 @@ func (g *gen) CodecSource(props []string, msgs []*Message, h2 bool, fieldFilter 
 		g.fillMessage(m)
 		g.eqMessage(m)
 		g.codecDrivers(m)
+		for _, f := range m.All {
+			if f.Card == "map" {
+				g.orderBuild(m, f)
+			}
+		}
 	}
 	for _, m := range msgs {
 		for _, prop := range props {
